@@ -117,12 +117,9 @@ Definition WfDoc (d : doc) : Prop :=
   XmlDeclR (d_decl d) (d_standalone d) /\
   WfItems (d_prolog d) /\ Forall is_misc_or_comment (d_prolog d) /\
   (exists name atts trail sc kids, d_root d = XElem name atts trail sc kids) /\ WfX (d_root d) /\
-  WfItems (d_after d) /\ Forall is_misc (d_after d) /\
-  (* maximal character data runs across the parts *)
-  head_is_text (d_prolog d) = false /\ (d_before d <> [] -> is_xtext (last (d_before d) (XPI [])) = false) /\
-  (d_prolog d <> [] -> is_xtext (last (d_prolog d) (XPI [])) = false) /\ head_is_text (d_after d) = false /\
-  (* a byte order mark is only taken off a non-empty rest *)
-  True.
+  WfItems (d_after d) /\ Forall is_misc (d_after d).
+(* (the parts are separated by markup - the declaration, the root - so character data runs of different parts are never
+   neighbours) *)
 
 Definition Reads (bs : list N) (d : doc) : Prop := bs = render_doc d /\ WfDoc d.
 
